@@ -232,7 +232,7 @@ class Scenario:
 
 def gen_scenario(rng, nrepos=None, small=False):
     repos = []
-    urls = ["http://h1/debian", "http://h2/ubuntu", "http://h3/sec/updates"]
+    urls = ["http://h1/debian", "http://h2/ubuntu", "http://h3/sec/updates", "http://h4/ports", "http://h5/extra", "http://h6/more"]
     for i in range(nrepos or rng.choice([1, 1, 2])):
         cns = ("stable",) if small or rng.random() < 0.7 else ("stable", "testing")
         comps = ("main",) if small else rng.choice([("main",), ("main", "contrib")])
